@@ -22,7 +22,7 @@ Definition fcmp_of (cc : floatcc) (c : option comparison) : bool :=
 Definition ftrunc (t : clty) (x : Z) : option Z :=
   match t with F32 => fb_trunc32 x | _ => fb_trunc64 x end.
 
-Definition flocq_sem : fsem := {|
+Definition flocq_sem_v (bysrc : bool) : fsem := {|
   f_from_sint := fun t w a => match t with F32 => fb_from_sint32 w a | _ => fb_from_sint64 w a end;
   f_from_uint := fun t w a => match t with F32 => fb_from_uint32 w a | _ => fb_from_uint64 w a end;
   f_to_sint_sat := fun t w x => to_sint_sat_of (ftrunc t x) w;
@@ -31,20 +31,29 @@ Definition flocq_sem : fsem := {|
   f_demote := fb_demote;
   f_neg := fun t x => fb_neg (clbits t) x;
   f_arith := fun i t x y => match t with F32 => fb_arith32 (farith_of i) x y | _ => fb_arith64 (farith_of i) x y end;
-  f_cmp := fun cc t x y => fcmp_of cc (match t with F32 => fb_compare32 x y | _ => fb_compare64 x y end)
+  f_cmp := fun cc t x y => fcmp_of cc (match t with F32 => fb_compare32 x y | _ => fb_compare64 x y end);
+  v_cast_by_source := bysrc
 |}.
+(* the code as it was when the check was written (finding C08-1 open) / after its repair *)
+Definition flocq_sem : fsem := flocq_sem_v false.
+Definition flocq_sem_fixed : fsem := flocq_sem_v true.
 
 Definition canon (v : value) : value :=
   let (t, a) := v in
   match t with F32 => (t, canon32 a) | F64 => (t, canon64 a) | _ => v end.
 
-Definition m_binary (l r : nty) (op : binop) (a b : Z) : result outcome :=
-  match model_binary flocq_sem l r op a b with
+(* entry points, per code variant [fx] of cast_num (false: before the repair of C08-1) *)
+Definition m_binary_v (fx : bool) (l r : nty) (op : binop) (a b : Z) : result outcome :=
+  match model_binary (flocq_sem_v fx) l r op a b with
   | Ok (Val v) => Ok (Val (canon v))
   | o => o
   end.
 Definition m_unary (t : nty) (op : unop) (a : Z) : result value :=
   do v <- model_unary flocq_sem t op a; Ok (canon v).
-Definition m_cast (from to : nty) (a : Z) : result value :=
-  do v <- model_cast flocq_sem from to a; Ok (canon v).
+Definition m_cast_v (fx : bool) (from to : nty) (a : Z) : result value :=
+  do v <- model_cast (flocq_sem_v fx) from to a; Ok (canon v).
 Definition m_remat (v : value) : value := canon (comptime_remat flocq_sem v).
+Definition m_binary := m_binary_v false.
+Definition m_cast := m_cast_v false.
+Definition m_binary_fx := m_binary_v true.
+Definition m_cast_fx := m_cast_v true.
